@@ -43,6 +43,8 @@ func main() {
 		cmdExplore(os.Args[2:])
 	case "run":
 		cmdRun(os.Args[2:])
+	case "native":
+		cmdNative(os.Args[2:])
 	default:
 		fmt.Fprintln(os.Stderr, "unknown command")
 		os.Exit(2)
@@ -217,5 +219,39 @@ func printResult(res *symgo.Result) {
 	fmt.Printf("  known=%v new=%d\n", res.KnownHits, res.NewViol)
 	for _, v := range res.Violations {
 		fmt.Printf("  VIOL clause=%s kind=%s detail=%q bytes=%q model=%v\n", v.Clause, v.Kind, v.Detail, v.Bytes(), v.Model)
+	}
+}
+
+// cmdNative runs one harness natively under a given model and prints the result.
+func cmdNative(args []string) {
+	fs := flag.NewFlagSet("native", flag.ExitOnError)
+	pkg := fs.String("pkg", pkgCM, "package")
+	h := fs.String("h", "", "harness")
+	params := fs.String("p", "", "params")
+	model := fs.String("m", "", "model values, comma separated")
+	fs.Parse(args)
+	var ps []int64
+	for _, s := range strings.Split(*params, ",") {
+		if s != "" {
+			v, _ := strconv.ParseInt(s, 10, 64)
+			ps = append(ps, v)
+		}
+	}
+	var m []uint64
+	for _, s := range strings.Split(*model, ",") {
+		if s != "" {
+			v, _ := strconv.ParseUint(s, 10, 64)
+			m = append(m, v)
+		}
+	}
+	res, err := nativeReplay("/verif", *pkg, []ReplayCase{{Harness: *h, Params: ps, Model: m}}, "native")
+	if err != nil {
+		fmt.Println("error:", err)
+		os.Exit(2)
+	}
+	r := res[0]
+	fmt.Printf("outcome=%s %s\nfailed=%v\ndigest=%q\n", r.Outcome, r.Detail, r.Failed, r.Digest)
+	for _, n := range r.Notes {
+		fmt.Printf("note: %q\n", n)
 	}
 }
